@@ -190,6 +190,11 @@ fn c06_cfg(metric: Metric, dim: usize, depth: usize, rejected: bool) -> TxnCfg {
         menu.push(Action::Add { index, id: 0, vec: wrong.clone() });
         menu.push(Action::Del { index, id: 0 });
         menu.push(Action::Del { index, id: 5 });
+        if rejected {
+            // C19: the largest ids deleted without a rebuild (the metadata of the last build still lists them)
+            menu.push(Action::Del { index, id: 1 });
+            menu.push(Action::Del { index, id: u32::MAX });
+        }
         menu.push(Action::Clear { index });
         menu.push(build(index, None, Some(1), None));
         menu.push(build(index, None, Some(1), Some(0)));
